@@ -61,6 +61,24 @@ def run(ctx):
         ok = guarded and (not under_fu or g.dominated(a, asserts))
         ctx.ob('C35-LOCKSET.added-only-for-locked-or-created-objects', idm, a.ast, ok,
                '' if ok else 'an object is added to cache.for_update outside `if for_update:` (with in_transaction asserted) / the created branch', node=a.ast)
+    # ... and the set does not outlive the transaction that took the locks: a session object survives commit() (it is dead after rollback / release,
+    # where the set is replaced), so every normal path through a SessionCache method that calls provider.commit empties the set -- whatever the
+    # state of `cache.modified` / `cache.in_transaction`.  Otherwise get_for_update() after an intermediate commit() is served from the cache without
+    # a new lock or re-read, and the optimistic check is skipped for a row that is no longer locked.
+    sc_ = repo.cls(CORE, 'SessionCache')
+    nce = 0
+    for name_, m_ in sorted(sc_.methods.items()):
+        if not any(isinstance(c.func, ast.Attribute) and c.func.attr == 'commit' and 'provider' in norm(c.func.value) for c in calls_in(m_.node)): continue
+        gm_ = cg.cfg(m_)
+        clears = nodes_calling(gm_, lambda c: isinstance(c.func, ast.Attribute) and c.func.attr == 'clear' and norm(c.func.value).endswith('.for_update'))
+        clears += [x for x in gm_.nodes if x.kind == 'stmt' and isinstance(x.ast, ast.Assign) and any(isinstance(t, ast.Attribute) and t.attr == 'for_update' for t in x.ast.targets)]
+        nce += 1
+        r_ = gm_.reach([gm_.entry], avoid=clears, edge_ok=lambda x, y, lab: lab != 'exc')
+        ok = bool(clears) and gm_.exit.id not in r_
+        ctx.ob('C35-LOCKSET.emptied-on-every-path-through-commit', m_, clears[0].ast if clears else m_.node, ok,
+               '' if ok else 'SessionCache.%s can return normally without emptying cache.for_update: the objects locked (or created) in the finished transaction keep their exemption from '
+               'the optimistic check, and get_for_update() finds them "already locked" although the database lock is gone' % name_)
+    ctx.floor('C35-LOCKSET', nce, 1, 'SessionCache methods that commit the transaction')
     # ---------------------------------------------------------------- RELOCK
     fc = repo.fn(CORE, 'EntityMeta._find_in_cache_'); g = cg.cfg(fc)
     # scenario evaluation: for_update requested and the object not in cache.for_update (tested directly or through a local holding the set)
@@ -171,6 +189,8 @@ MUTANTS = [
     dict(id='C35-m3', file='pony/orm/core.py', fn='EntityMeta._find_in_db_', old='        if for_update: cache.immediate = True\n', new='', expect='C35-BEGIN'),
     dict(id='C35-m4', file='pony/orm/core.py', fn='Query._actual_fetch', old='            if query._for_update: cache.immediate = True\n', new='', expect='C35-BEGIN'),
     dict(id='C35-m5', file='pony/orm/sqlbuilding.py', fn='SQLBuilder.SELECT_FOR_UPDATE', old="        return result, 'FOR UPDATE', nowait, skip_locked, '\\n'", new="        return result, '\\n'", expect='C35-SQL.builder'),
+    dict(id='C35-ce1', file='pony/orm/core.py', fn='SessionCache.commit', old="            if cache.modified: cache.flush()\n", new="            if cache.modified:\n                cache.flush()\n                cache.for_update.clear()\n", nth=0, expect=None, benign=True),
+    dict(id='C35-ce2', file='pony/orm/core.py', fn='SessionCache.commit', old="                cache.database.provider.commit(cache.connection, cache)\n            cache.for_update.clear()\n", new="                cache.database.provider.commit(cache.connection, cache)\n                cache.for_update.clear()\n", expect='C35-LOCKSET.emptied'),
     dict(id='C35-m6', file='pony/orm/core.py', fn='SessionCache.flush', old='                cache.max_id_cache.clear()\n', new='                cache.max_id_cache.clear()\n                cache.for_update.update(o for o, s in cache.saved_objects)\n', expect='C35-LOCKSET'),
     dict(id='C35-m7', file='pony/orm/core.py', fn='DBSessionContextManager.__init__', old='db_session.immediate = immediate or ddl or serializable or not optimistic', new='db_session.immediate = immediate or ddl or not optimistic', expect='C35-SERIAL'),
 ]
